@@ -10,12 +10,15 @@
     app hash, and which service contexts the service module agreed to start) and batches of
     callbacks from the service module ([Calls]).
 
-    [sane used steps] is the hypothesis of the property: no block has unix time 0 (the PRNG
-    divides by it) and no requester has two accepted requests in one block (the id scheme's
-    stated limit: the id is derived from height and requester only).
+    [sane P used steps] is the hypothesis of the property: no block has unix time 0 (the PRNG
+    divides by it) and no requester in the set [P] has two well-formed requests in one block
+    (the id scheme's stated limit: the id is derived from height and requester only).  The
+    theorems about one request need it for that request's own requester only ([P c = true];
+    take [P := Z.eqb c]); the theorems about values need no requester at all
+    ([P := fun _ => false] leaves "no block has time 0").
     [ctx_unused r0 steps]: the service module never hands the service context of the oracle
     request [r0] to another request (context ids are hashes of a counter in the service module). *)
-From Irismod Require Import Random.Model Random.Proofs.
+From Irismod Require Import Random.Model Random.Spec Random.Check Random.Proofs Random.Sound.
 
 (** ** the value: a decimal in [0,1) with exactly 20 fractional digits
 
@@ -34,6 +37,16 @@ Proof.
 Qed.
 Print Assumptions value_in_unit_interval_20_digits.
 
+(** ... and so is every result that can be read in any reachable state, whichever request wrote it *)
+Theorem every_stored_result_is_a_20_digit_unit_decimal :
+  forall (sha : hin -> Z) (P : Z -> bool) (steps : list step) (id : rid) (txh hh x : Z),
+    sane P [] steps -> query_random (run sha init steps) id = Some (txh, hh, x) ->
+    0 <= x < precision
+    /\ exists ds, render x = 48 :: 46 :: ds /\ length ds = 20%nat
+                  /\ Forall (fun ch => 48 <= ch <= 57) ds /\ undigits ds 0 = x.
+Proof. exact stored_results_lemma. Qed.
+Print Assumptions every_stored_result_is_a_20_digit_unit_decimal.
+
 (** ** a plain request is fulfilled exactly once, in the block following height + interval
 
     Whatever happened before ([pre]) and whatever happens after ([post]) the accepted request
@@ -44,12 +57,13 @@ Print Assumptions value_in_unit_interval_20_digits.
     its id is (request tx hash, h + n, PRNG(t, a, requester)), and the history contains exactly
     one fulfilment under its id: that one. *)
 Theorem fulfilled_exactly_once_on_time :
-  forall (sha : hin -> Z) (pre post : list step) (c n : Z) (capok : bool) (txh : Z) (svc : option Z),
+  forall (sha : hin -> Z) (P : Z -> bool) (pre post : list step) (c n : Z) (capok : bool) (txh : Z)
+         (svc : option Z),
     let s := run sha init pre in
     let h := height s in
     let id := (h, c) in
     let steps := pre ++ Req c n false capok txh svc :: post in
-    sane [] steps -> req_ok c capok false svc = true -> 0 <= n -> h + n < two64 ->
+    sane P [] steps -> P c = true -> req_ok c capok false svc = true -> 0 <= n -> h + n < two63 ->
     let fin := run sha init steps in
     let mine := filter (fun ev => eqb (e_rid ev) id) (events sha init steps) in
     match nth_begin (Z.to_nat n) post with
@@ -60,8 +74,8 @@ Theorem fulfilled_exactly_once_on_time :
         /\ mine = [mkEv (h + n + 1) t a id txh None x]
     end.
 Proof.
-  intros sha pre post c n capok txh svc s h id steps Hs Hok Hn Hd.
-  exact (plain_lemma sha pre post c n false capok txh svc Hs Hok Hn Hd
+  intros sha P pre post c n capok txh svc s h id steps Hs HP Hok Hn Hd.
+  exact (plain_lemma sha P pre post c n false capok txh svc Hs HP Hok Hn Hd
                      (fun H => False_ind _ (Bool.diff_false_true H)) eq_refl).
 Qed.
 Print Assumptions fulfilled_exactly_once_on_time.
@@ -78,12 +92,13 @@ Print Assumptions fulfilled_exactly_once_on_time.
     contexts.  [Fulfilled] and [Dropped] are final.  What the queries show is a function of the
     phase, and the fulfilments logged under the id are exactly the entry into [Fulfilled]. *)
 Theorem request_life_cycle :
-  forall (sha : hin -> Z) (pre post : list step) (c n : Z) (orc capok : bool) (txh : Z) (svc : option Z),
+  forall (sha : hin -> Z) (P : Z -> bool) (pre post : list step) (c n : Z) (orc capok : bool) (txh : Z)
+         (svc : option Z),
     let s := run sha init pre in
     let r0 := new_req s c txh orc svc in
     let d := height s + n in
     let steps := pre ++ Req c n orc capok txh svc :: post in
-    sane [] steps -> req_ok c capok orc svc = true -> 0 <= n -> d < two64 ->
+    sane P [] steps -> P c = true -> req_ok c capok orc svc = true -> 0 <= n -> d < two63 ->
     (orc = true -> ctx_unused r0 (pre ++ post)) ->
     let ph := spec_run sha r0 d (enq s n r0) Pending post in
     let fin := run sha init steps in
@@ -149,11 +164,12 @@ Print Assumptions fulfilled_and_dropped_are_final.
 
 (** ** no request, plain or oracle-seeded, is ever fulfilled twice *)
 Theorem fulfilled_at_most_once :
-  forall (sha : hin -> Z) (pre post : list step) (c n : Z) (orc capok : bool) (txh : Z) (svc : option Z),
+  forall (sha : hin -> Z) (P : Z -> bool) (pre post : list step) (c n : Z) (orc capok : bool) (txh : Z)
+         (svc : option Z),
     let s := run sha init pre in
     let r0 := new_req s c txh orc svc in
     let steps := pre ++ Req c n orc capok txh svc :: post in
-    sane [] steps -> req_ok c capok orc svc = true -> 0 <= n -> height s + n < two64 ->
+    sane P [] steps -> P c = true -> req_ok c capok orc svc = true -> 0 <= n -> height s + n < two63 ->
     (orc = true -> ctx_unused r0 (pre ++ post)) ->
     (length (filter (is_i r0) (events sha init steps)) <= 1)%nat.
 Proof. exact at_most_once_lemma. Qed.
@@ -164,13 +180,13 @@ Print Assumptions fulfilled_at_most_once.
     If the result of a request can be read after [post], the same result is read after every
     continuation [post ++ post']. *)
 Theorem read_back_unchanged :
-  forall (sha : hin -> Z) (pre post post' : list step) (c n : Z) (orc capok : bool) (txh : Z)
-         (svc : option Z) (v : result),
+  forall (sha : hin -> Z) (P : Z -> bool) (pre post post' : list step) (c n : Z) (orc capok : bool)
+         (txh : Z) (svc : option Z) (v : result),
     let s := run sha init pre in
     let r0 := new_req s c txh orc svc in
     let rq := Req c n orc capok txh svc in
-    sane [] (pre ++ rq :: post ++ post') ->
-    req_ok c capok orc svc = true -> 0 <= n -> height s + n < two64 ->
+    sane P [] (pre ++ rq :: post ++ post') -> P c = true ->
+    req_ok c capok orc svc = true -> 0 <= n -> height s + n < two63 ->
     (orc = true -> ctx_unused r0 (pre ++ post ++ post')) ->
     query_random (run sha init (pre ++ rq :: post)) (req_id r0) = Some v ->
     query_random (run sha init (pre ++ rq :: post ++ post')) (req_id r0) = Some v.
@@ -184,8 +200,8 @@ Print Assumptions read_back_unchanged.
     two fulfilments - in one history or in two unrelated ones - that agree on the four have
     the same value. *)
 Theorem value_is_function_of_its_inputs :
-  forall (sha : hin -> Z) (steps : list step) (ev : event),
-    sane [] steps -> In ev (events sha init steps) ->
+  forall (sha : hin -> Z) (P : Z -> bool) (steps : list step) (ev : event),
+    sane P [] steps -> In ev (events sha init steps) ->
     e_time ev <> 0
     /\ e_val ev = rand_val sha (e_time ev) (e_app ev) (snd (e_rid ev)) (e_seed ev)
     /\ 0 <= e_val ev < precision.
@@ -193,8 +209,8 @@ Proof. exact fulfilment_value_lemma. Qed.
 Print Assumptions value_is_function_of_its_inputs.
 
 Theorem value_depends_only_on :
-  forall (sha : hin -> Z) (steps1 steps2 : list step) (ev1 ev2 : event),
-    sane [] steps1 -> sane [] steps2 ->
+  forall (sha : hin -> Z) (P : Z -> bool) (steps1 steps2 : list step) (ev1 ev2 : event),
+    sane P [] steps1 -> sane P [] steps2 ->
     In ev1 (events sha init steps1) -> In ev2 (events sha init steps2) ->
     e_time ev1 = e_time ev2 -> e_app ev1 = e_app ev2 ->
     snd (e_rid ev1) = snd (e_rid ev2) -> e_seed ev1 = e_seed ev2 ->
@@ -204,18 +220,39 @@ Print Assumptions value_depends_only_on.
 
 (** a fulfilment's header is the header of the block it happens in *)
 Theorem fulfilment_carries_its_block_header :
-  forall (sha : hin -> Z) (used : list Z) (s : state) (st : step) (ev : event),
-    Base used s -> sane used [st] -> In ev (step_events sha s st) ->
+  forall (sha : hin -> Z) (P : Z -> bool) (used : list Z) (s : state) (st : step) (ev : event),
+    Base used s -> sane P used [st] -> In ev (step_events sha s st) ->
     let s' := step_state sha s st in
     event_ok sha (height s') (time s') (apph s') ev /\ time s' <> 0.
 Proof. exact step_events_ok. Qed.
 Print Assumptions fulfilment_carries_its_block_header.
 
 Theorem reachable_states_are_well_formed :
-  forall (sha : hin -> Z) (steps : list step),
-    sane [] steps -> Base (used_after [] steps) (run sha init steps).
-Proof. intros sha steps Hs. exact (Base_run sha steps [] init Base_init Hs). Qed.
+  forall (sha : hin -> Z) (P : Z -> bool) (steps : list step),
+    sane P [] steps -> Base (used_after [] steps) (run sha init steps).
+Proof. intros sha P steps Hs. exact (Base_run sha P steps [] init Base_init Hs). Qed.
 Print Assumptions reachable_states_are_well_formed.
+
+(** ** the check evaluates the theorem
+
+    [Check.view_ok] - the predicate the correspondence check evaluates, after every step, on
+    what the IMPLEMENTATION's queries show for every request it follows (clause 9) - holds of
+    the MODEL's own observations, for every request in every history that satisfies the
+    hypotheses. *)
+Theorem model_views_ok :
+  forall (sha : hin -> Z) (P : Z -> bool) (pre post : list step) (c n : Z) (orc capok : bool) (txh : Z)
+         (svc : option Z) (code : Z) (ids : list rid) (ctxs : list Z) (facts : list svcfact),
+    let s := run sha init pre in
+    let r0 := new_req s c txh orc svc in
+    let d := height s + n in
+    let steps := pre ++ Req c n orc capok txh svc :: post in
+    sane P [] steps -> P c = true -> req_ok c capok orc svc = true -> 0 <= n -> d < two63 ->
+    (orc = true -> ctx_unused r0 (pre ++ post)) ->
+    In (req_id r0) ids -> In (q_ctx r0) ctxs ->
+    view_ok r0 d (spec_run sha r0 d (enq s n r0) Pending post)
+            (obs_of (run sha init steps) code ids ctxs facts) = true.
+Proof. exact model_views_ok_lemma. Qed.
+Print Assumptions model_views_ok.
 
 (** ** the hypotheses are needed, and are satisfiable *)
 
@@ -236,12 +273,12 @@ Example read_back_needs_one_request_per_block :
   let rq n txh := Req 3 n false true txh None in
   let pre := [rq 0 50; rq 1 51; Begin 1700000000 1 []] in
   let post := [Begin 1700000005 2 []] in
-  ~ sane [] (pre ++ post)
+  ~ sane (Z.eqb 3) [] (pre ++ post)
   /\ exists v v', query_random (run toy_sha init pre) (1, 3) = Some v
                /\ query_random (run toy_sha init (pre ++ post)) (1, 3) = Some v' /\ v <> v'.
 Proof.
   cbv zeta. split.
-  - simpl. intros [H1 [H2 _]]. apply H2. left. reflexivity.
+  - simpl. intros [H1 [H2 _]]. apply H2; [reflexivity|left; reflexivity].
   - eexists. eexists. split; [vm_compute; reflexivity|]. split; [vm_compute; reflexivity|].
     intros H. discriminate H.
 Qed.
@@ -266,10 +303,10 @@ Definition demo_post : list step :=
 Example c18_nonvacuous :
   let steps := demo_pre ++ demo_req :: demo_post in
   let s := run toy_sha init demo_pre in
-  sane [] steps
+  sane (fun _ => true) [] steps
   /\ ctx_unused (new_req s 3 103 true (Some 8)) (demo_pre ++ demo_post)
   /\ ctx_unused (new_req init 1 101 true (Some 7)) (demo_req :: demo_post ++ [Begin 5 5 []])
-  /\ height s + 1 < two64
+  /\ height s + 1 < two63
   /\ length (events toy_sha init steps) = 4%nat
   /\ length (filter (fun ev => e_block ev =? 4) (events toy_sha init steps)) = 2%nat
   /\ spec_run toy_sha (new_req s 3 103 true (Some 8)) 3 (enq s 1 (new_req s 3 103 true (Some 8))) Pending demo_post
